@@ -19,9 +19,9 @@ import (
 
 func init() {
 	jobs = append(jobs,
-		job{props: []string{"C14"}, fn: genTicketDigestFacts},
-		job{props: []string{"C12"}, fn: genOrderDigestFacts},
-		job{props: []string{"C12", "C14"}, fn: genCodecFacts},
+		job{props: []string{"C14"}, fn: digGenTicketDigestFacts},
+		job{props: []string{"C12"}, fn: digGenOrderDigestFacts},
+		job{props: []string{"C12", "C14"}, fn: digGenCodecFacts},
 	)
 }
 
@@ -41,16 +41,16 @@ func digNodeString(n ast.Node) string {
 	return strings.Join(strings.Fields(s), " ")
 }
 
-// typeEnv resolves the static type of simple expressions (identifiers,
+// digTypeEnv resolves the static type of simple expressions (identifiers,
 // selector chains with embedded-field promotion, conversions, full slices of
 // arrays) from the struct and type declarations of one package.
-type typeEnv struct {
+type digTypeEnv struct {
 	types  map[string]ast.Expr // named type -> its declared type expression
 	locals map[string]string   // identifier -> type string
 }
 
-func newTypeEnv(files []*ast.File) *typeEnv {
-	te := &typeEnv{types: map[string]ast.Expr{}, locals: map[string]string{}}
+func digNewTypeEnv(files []*ast.File) *digTypeEnv {
+	te := &digTypeEnv{types: map[string]ast.Expr{}, locals: map[string]string{}}
 	for _, f := range files {
 		for _, d := range f.Decls {
 			gd, ok := d.(*ast.GenDecl)
@@ -68,7 +68,7 @@ func newTypeEnv(files []*ast.File) *typeEnv {
 
 // fieldType finds field `name` in struct type `tn` (directly or promoted
 // through embedded structs of the same package).
-func (te *typeEnv) fieldType(tn, name string, depth int) (string, bool) {
+func (te *digTypeEnv) fieldType(tn, name string, depth int) (string, bool) {
 	tn = strings.TrimPrefix(tn, "*")
 	st, ok := te.types[tn].(*ast.StructType)
 	if !ok || depth > 4 {
@@ -92,7 +92,7 @@ func (te *typeEnv) fieldType(tn, name string, depth int) (string, bool) {
 }
 
 // underlying follows named types of the package to a non-identifier type.
-func (te *typeEnv) underlying(t string) ast.Expr {
+func (te *digTypeEnv) underlying(t string) ast.Expr {
 	for i := 0; i < 4; i++ {
 		e, ok := te.types[t]
 		if !ok {
@@ -107,7 +107,7 @@ func (te *typeEnv) underlying(t string) ast.Expr {
 	return nil
 }
 
-func (te *typeEnv) typeOf(e ast.Expr) (string, bool) {
+func (te *digTypeEnv) typeOf(e ast.Expr) (string, bool) {
 	switch x := e.(type) {
 	case *ast.Ident:
 		t, ok := te.locals[x.Name]
@@ -153,27 +153,27 @@ func (te *typeEnv) typeOf(e ast.Expr) (string, bool) {
 	return "", false
 }
 
-type digestArg struct{ expr, goType string }
+type digDigestArg struct{ expr, goType string }
 
-type digestCase struct {
+type digDigestCase struct {
 	labels   []string
 	versions []string
 	pre      []string
-	args     []digestArg
+	args     []digDigestArg
 	post     []string
 }
 
-type digestFn struct {
+type digDigestFn struct {
 	name  string
 	head  []string
 	tag   string
-	cases []digestCase
+	cases []digDigestCase
 	dflt  []string
 	tail  []string
 }
 
-// isWriteElementsCall recognises `err := codec.WriteElements(&msg, …)`.
-func isWriteElementsCall(s ast.Stmt) *ast.CallExpr {
+// digIsWriteElementsCall recognises `err := codec.WriteElements(&msg, …)`.
+func digIsWriteElementsCall(s ast.Stmt) *ast.CallExpr {
 	as, ok := s.(*ast.AssignStmt)
 	if !ok || len(as.Rhs) != 1 || len(as.Lhs) != 1 {
 		return nil
@@ -185,18 +185,18 @@ func isWriteElementsCall(s ast.Stmt) *ast.CallExpr {
 	return call
 }
 
-// extractDigestFn reads one `Digest`-style method: statements before the
+// digExtractDigestFn reads one `Digest`-style method: statements before the
 // version switch, the switch with one codec.WriteElements call per case, the
 // default clause and the statements after the switch.
-func extractDigestFn(files []*ast.File, te *typeEnv, ce *constEnv,
-	pkg, name string) *digestFn {
+func digExtractDigestFn(files []*ast.File, te *digTypeEnv, ce *constEnv,
+	pkg, name string) *digDigestFn {
 
 	fd := findFunc(files, name)
 	if fd == nil || fd.Body == nil {
 		fail("%s.%s not found", pkg, name)
 		return nil
 	}
-	res := &digestFn{name: name}
+	res := &digDigestFn{name: name}
 	te.locals = map[string]string{}
 	if fd.Recv != nil && len(fd.Recv.List) == 1 && len(fd.Recv.List[0].Names) == 1 {
 		te.locals[fd.Recv.List[0].Names[0].Name] = exprString(fd.Recv.List[0].Type)
@@ -232,7 +232,7 @@ func extractDigestFn(files []*ast.File, te *typeEnv, ce *constEnv,
 			}
 			continue
 		}
-		dc := digestCase{}
+		dc := digDigestCase{}
 		for _, l := range cc.List {
 			dc.labels = append(dc.labels, digNodeString(l))
 			id, ok := l.(*ast.Ident)
@@ -250,7 +250,7 @@ func extractDigestFn(files []*ast.File, te *typeEnv, ce *constEnv,
 		}
 		var call *ast.CallExpr
 		for _, s := range cc.Body {
-			if c := isWriteElementsCall(s); c != nil {
+			if c := digIsWriteElementsCall(s); c != nil {
 				if call != nil {
 					fail("%s.%s case %v: two WriteElements calls", pkg,
 						name, dc.labels)
@@ -293,7 +293,7 @@ func extractDigestFn(files []*ast.File, te *typeEnv, ce *constEnv,
 					name, dc.labels, digNodeString(a))
 				t = "?"
 			}
-			dc.args = append(dc.args, digestArg{digNodeString(a), t})
+			dc.args = append(dc.args, digDigestArg{digNodeString(a), t})
 		}
 		te.locals = saved
 		res.cases = append(res.cases, dc)
@@ -304,9 +304,9 @@ func extractDigestFn(files []*ast.File, te *typeEnv, ce *constEnv,
 	return res
 }
 
-// newLeanImporting is newLean for a generated file that imports a (hand-written,
+// digNewLeanImporting is newLean for a generated file that imports a (hand-written,
 // data-only) module: the import has to precede the module doc comment.
-func newLeanImporting(name, imp, doc string) *leanFile {
+func digNewLeanImporting(name, imp, doc string) *leanFile {
 	l := &leanFile{name: name}
 	l.p("/- GENERATED by /verif/harness/overlay/cmd/astfacts from the source of /repo. Do not edit. -/")
 	l.p("import %s", imp)
@@ -315,9 +315,9 @@ func newLeanImporting(name, imp, doc string) *leanFile {
 	return l
 }
 
-func leanNatList(xs []string) string { return "[" + strings.Join(xs, ", ") + "]" }
+func digLeanNatList(xs []string) string { return "[" + strings.Join(xs, ", ") + "]" }
 
-func emitDigestFn(l *leanFile, leanName string, f *digestFn) {
+func digEmitDigestFn(l *leanFile, leanName string, f *digDigestFn) {
 	l.p("def %s : DigestFn := {", leanName)
 	l.p("  name := %q,", f.name)
 	l.p("  head := %s,", leanStrList(f.head))
@@ -332,7 +332,7 @@ func emitDigestFn(l *leanFile, leanName string, f *digestFn) {
 		if i == len(f.cases)-1 {
 			sep = ""
 		}
-		l.p("    { labels := %s, versions := %s,", leanStrList(c.labels), leanNatList(c.versions))
+		l.p("    { labels := %s, versions := %s,", leanStrList(c.labels), digLeanNatList(c.versions))
 		l.p("      pre := %s,", leanStrList(c.pre))
 		l.p("      args := [%s],", strings.Join(as, ", "))
 		l.p("      post := %s }%s", leanStrList(c.post), sep)
@@ -344,12 +344,12 @@ func emitDigestFn(l *leanFile, leanName string, f *digestFn) {
 
 // ---------------------------------------------------------------- C14
 
-func genTicketDigestFacts() {
+func digGenTicketDigestFacts() {
 	files := pkgFiles("sidecar")
-	te := newTypeEnv(files)
+	te := digNewTypeEnv(files)
 	ce := newConstEnv(files)
-	offer := extractDigestFn(files, te, ce, "sidecar", "Ticket.OfferDigest")
-	order := extractDigestFn(files, te, ce, "sidecar", "Ticket.OrderDigest")
+	offer := digExtractDigestFn(files, te, ce, "sidecar", "Ticket.OfferDigest")
+	order := digExtractDigestFn(files, te, ce, "sidecar", "Ticket.OrderDigest")
 	if offer == nil || order == nil {
 		return
 	}
@@ -361,7 +361,7 @@ func genTicketDigestFacts() {
 		"t.Order.BidNonce[:]": true, "t.Offer.LeaseDurationBlocks": true,
 		"uint8(t.State)": true,
 	}
-	for _, f := range []*digestFn{offer, order} {
+	for _, f := range []*digDigestFn{offer, order} {
 		for _, c := range f.cases {
 			for _, a := range c.args {
 				if !known[a.expr] {
@@ -371,11 +371,11 @@ func genTicketDigestFacts() {
 			}
 		}
 	}
-	l := newLeanImporting("TicketDigestFacts", "PoolModel.DigestTypes", "Ordered codec.WriteElements argument lists of "+
+	l := digNewLeanImporting("TicketDigestFacts", "PoolModel.DigestTypes", "Ordered codec.WriteElements argument lists of "+
 		"sidecar.Ticket.OfferDigest / OrderDigest per version case, sidecar state and version constants.")
-	l.p("namespace Pool.Gen")
-	emitDigestFn(l, "ticketOfferDigest", offer)
-	emitDigestFn(l, "ticketOrderDigest", order)
+	l.p("namespace Pool.Gen.C14")
+	digEmitDigestFn(l, "ticketOfferDigest", offer)
+	digEmitDigestFn(l, "ticketOrderDigest", order)
 	for _, n := range []string{"StateCreated", "StateOffered", "StateRegistered",
 		"StateOrdered", "StateExpectingChannel", "StateCompleted", "StateCanceled"} {
 
@@ -389,14 +389,14 @@ func genTicketDigestFacts() {
 	l.p("def orderBaseSupplyUnit : Nat := %s", intConst(oce, "order", "BaseSupplyUnit"))
 	l.p("def orderBTCInboundLiquidity : Nat := %s", intConst(oce, "order", "BTCInboundLiquidity"))
 	l.p("def orderBTCOutboundLiquidity : Nat := %s", intConst(oce, "order", "BTCOutboundLiquidity"))
-	l.p("end Pool.Gen")
+	l.p("end Pool.Gen.C14")
 }
 
 // ---------------------------------------------------------------- codec
 
-// genCodecFacts emits the type switch of codec.WriteElement: case type ->
+// digGenCodecFacts emits the type switch of codec.WriteElement: case type ->
 // statement(s) executed.
-func genCodecFacts() {
+func digGenCodecFacts() {
 	files := pkgFiles("codec")
 	fd := findFunc(files, "WriteElement")
 	if fd == nil || fd.Body == nil {
@@ -414,7 +414,7 @@ func genCodecFacts() {
 		return
 	}
 	l := newLean("CodecFacts", "Type switch of codec.WriteElement: (case type, statements).")
-	l.p("namespace Pool.Gen")
+	l.p("namespace Pool.Gen.Codec")
 	l.p("def codecCases : List (String × String) := [")
 	var rows []string
 	for _, c := range ts.Body.List {
@@ -433,5 +433,5 @@ func genCodecFacts() {
 	}
 	l.p("%s", strings.Join(rows, ",\n"))
 	l.p("]")
-	l.p("end Pool.Gen")
+	l.p("end Pool.Gen.Codec")
 }
